@@ -889,9 +889,15 @@ match &current.container {
                 status: Status::FAIL,
                 message,
             })) => {
+                let checks = report_all_failed_clauses_for_rules(&current.children);
+                
+                
+                if checks.is_empty() && message.is_none() {
+                    continue;
+                }
                 clauses.push(ClauseReport::Rule(RuleReport {
                     name,
-                    checks: report_all_failed_clauses_for_rules(&current.children),
+                    checks,
                     messages: Messages {
                         custom_message: message.clone(),
                         error_message: None,
